@@ -19,7 +19,7 @@ G = {
             r'mow\.cli\.\(\*Cmd\)\.(Bool|String|Int|Float64|Strings|Ints|Floats64)(Opt|Arg)?(Ptr)?', r'mow\.cli\.\(\*Cmd\)\.Var(Opt|Arg)?', r'mow\.cli\.\(Var(Opt|Arg)\)\.value', r'mow\.cli\.App',
             r'mow\.cli\.\(\*Cli\)\.Version', r'mow\.cli\.\(\*Cmd\)\.Command'],
  'INIT':   [r'mow\.cli\.\(\*Cmd\)\.doInit'],
- 'ROUTE':  [r'mow\.cli\.\(\*Cmd\)\.(parse|getOptsAndArgs|helpIndex|isAlias|isFirstItemAmong|onError)', r'mow\.cli\.\(\*Cli\)\.(parse|Run)', r'lemma\.help.*', r'mow\.cli\.init\$1'],
+ 'ROUTE':  [r'mow\.cli\.\(\*Cmd\)\.(parse|getOptsAndArgs|helpIndex|isAlias|isFirstItemAmong|onError)', r'mow\.cli\.\(\*Cli\)\.(parse|Run)', r'lemma\.help.*', r'mow\.cli\.init\$1', r'mow\.cli\.ActionCommand\$1'],
  'HELP':   [r'mow\.cli\.(joinStrings|formatValueForHelp|formatEnvVarsForHelp|formatOptNamesForHelp|printTabbedRow|\(\*Cmd\)\.(printHelp|PrintHelp|PrintLongHelp))'],
  'SWEEP':  [r'sweep\..*'],
 }
